@@ -74,16 +74,22 @@ BatchLedger(o, prims) ==
 
 (* C06 ledger.  a = <<kind, tok1, tok2, n1, n2, live>>  (sizes in bytes) *)
 LedBlk0(b) == [blocks |-> b, bad |-> <<>>, nullDealloc |-> 0]
+\* a block is recorded with its size in bytes plus TagUnit times the tag of the allocator TYPE it came from (7th field of
+\* an event, 0 when absent): it has to go back with the same size to an allocator of the same type
+TagUnit == 16777216
+TagKey(a) == IF Len(a) >= 7 THEN a[7] * TagUnit ELSE 0
 BadB(L, why, a) == [L EXCEPT !.bad = IF Len(@) < 4 THEN Append(@, <<why, a>>) ELSE @]
 ApplyAlloc(sizes, L, a) ==   \* sizes: admissible live-element counts for a reallocate in this call
   LET kind == a[1] t1 == a[2] t2 == a[3] n1 == a[4] n2 == a[5] live == a[6] IN
   CASE kind = "alloc" ->
          IF t1 \in DOMAIN L.blocks THEN BadB(L, "block-handed-out-twice", a)
-         ELSE [L EXCEPT !.blocks = Put(@, t1, n1)]
+         ELSE [L EXCEPT !.blocks = Put(@, t1, n1 + TagKey(a))]
     [] kind = "dealloc" ->
          IF t1 = 0 /\ n1 = 0 THEN [L EXCEPT !.nullDealloc = @ + 1]      \* deallocate(nullptr, 0): not a block
          ELSE IF t1 \notin DOMAIN L.blocks THEN BadB(L, "dealloc-of-unknown-or-freed-block", a)
-         ELSE IF L.blocks[t1] # n1 THEN BadB([L EXCEPT !.blocks = Del(@, t1)], "dealloc-with-wrong-size", a)
+         ELSE IF L.blocks[t1] # n1 + TagKey(a)
+              THEN BadB([L EXCEPT !.blocks = Del(@, t1)],
+                        IF L.blocks[t1] % TagUnit = n1 THEN "block-handed-back-to-an-allocator-of-another-type" ELSE "dealloc-with-wrong-size", a)
          ELSE [L EXCEPT !.blocks = Del(@, t1)]
     [] kind = "realloc" ->
          IF Cat = "NTR" THEN BadB(L, "reallocate-used-for-non-relocatable-type", a)
